@@ -4,6 +4,21 @@ import json, os
 HERE = os.path.dirname(os.path.dirname(os.path.abspath(__file__)))
 
 CLAIMS = {
+    "C06": ("dominance rule on optimize()'s entry guards + validator formulas + typed-flow rule for float|list values + typed sink + abstract evaluation of config-affine denominators over the configuration domain",
+            "Static, partial by design: decides that every invalid call (no configuration, bad mode, workers <= 0, weight/objective "
+            "mismatch, negative weights) is rejected with ValueError before the first hook, that a float-or-list objective value is "
+            "never used arithmetically unguarded, that the seed sink is int-typed, and that no scalar division in optimizer code has a "
+            "denominator over max_cycles/cycle/population_size that vanishes on the valid configuration domain. The first sentence of "
+            "the property (no internal error for every valid input) is NOT decided.",
+            "Crash freedom over data-dependent numpy behaviour is out of reach of a static argument; annotations are taken as types.",
+            "DESIGN.md 4/C06"),
+    "C11": ("structural rules on the pooled paths: exactly-once hand-off, pairing at submission, per-class worker purity (effect scan over the call graph), RNG stream distinctness of submitted callables",
+            "Static, schedule-independent: one future per work item in unfiltered comprehensions, get_pool_results appends every "
+            "result exactly once, completion-ordered results are only used wholesale, both greedy operands travel with the submission, "
+            "everything reachable from a submitted callable is pure w.r.t. optimizer state in all 84 class contexts, and an RNG-drawing "
+            "callable is only submitted with a per-submission argument drawn by the parent. Interleavings are not explored.",
+            "concurrent.futures semantics trusted; replay of auxiliary random fields inside overridden _init_agent in forked workers is noted, not decided.",
+            "DESIGN.md 4/C11"),
     "C19": ("loop-completeness path rules on HyperTuner.execute + polarity (RAW/RANK) typing of the pandas ranking pipeline with the direction flag partially evaluated under MIN/MAX",
             "Static: the grid loop covers list(ParameterGrid(param_grid)) without exits, sets the point's parameters before its "
             "n_trials trials, records the same point and one cost per trial column; every rank() of the RAW mean column carries the "
